@@ -200,15 +200,13 @@ class ExternalVariableCollector(NodeVisitor):
 
     def visit_AnnAssign(self, node):
         self.visit(node.target)
-        if isinstance(node.target, ast.Name):
-            # Python never evaluates this annotation
-            self._in_local_ann = True
-            try:
-                self.visit(node.annotation)
-            finally:
-                self._in_local_ann = False
-        else:
+        # Inside a function Python never evaluates this annotation, whatever
+        # the target is
+        self._in_local_ann = True
+        try:
             self.visit(node.annotation)
+        finally:
+            self._in_local_ann = False
         if node.value is not None:
             self.visit(node.value)
 
